@@ -88,6 +88,14 @@ def itemTicks : Option Int → List Item → List (Option Int)
   | _, .tickEnd _ :: r => itemTicks none r
   | o, _ :: r => o :: itemTicks o r
 
+/-- The items other than tick marks. -/
+def reported (its : List Item) : List Item := its.filter (fun it => !isTick it)
+
+/-- The messages of a stream (the bytes after the header), up to and including `FINISH` or up to
+the first record that is incomplete or malformed. -/
+def messages (hasEx : Bool) (s : List UInt8) : List FItem :=
+  (parseAll hasEx (s.length + 1) s).1.map Rec.item
+
 /-! ### Positions and inputs as running sums (exact integers, reduced only when reported) -/
 
 structure Sums where
